@@ -472,6 +472,62 @@ theorem any_of_all_ne_nil (f : String → Bool) : ∀ ps : List String, ps ≠ [
       simp only [List.all_cons, Bool.and_eq_true] at h
       simp [h.1]
 
+/-! ## non-generic entries of `__orig_bases__` are skipped by both loops -/
+
+theorem dropPlain_replicate_append (n : Nat) (r : List OrigBase) :
+    dropPlain (List.replicate n .plain ++ r) = dropPlain r := by
+  induction n with
+  | zero => rfl
+  | succ k ih => simpa [List.replicate_succ, dropPlain] using ih
+
+theorem dropPlain_origBases (chain : List Level) : dropPlain (origBases chain) = origBasesCore chain := by
+  match chain with
+  | [] => rfl
+  | [lv] =>
+    simp only [origBases, origBasesCore, dropPlain_replicate_append]
+    split <;> rfl
+  | lv :: b :: r =>
+    simp only [origBases, origBasesCore]
+    rw [dropPlain_replicate_append]
+    by_cases hb : lv.baseArgs.isEmpty = true
+    · simp only [hb, ↓reduceIte, List.nil_append, dropPlain_replicate_append]
+      split <;> rfl
+    · simp only [hb, Bool.false_eq_true, ↓reduceIte, List.cons_append, List.nil_append, dropPlain,
+        dropPlain_replicate_append]
+      split <;> rfl
+
+theorem genMapBare_dropPlain (dfl : Mapping) :
+    ∀ (obs : List OrigBase) (m : Mapping), genMapBare dfl obs m = genMapBare dfl (dropPlain obs) m
+  | [], _ => rfl
+  | .param bps args :: r, m => by simp only [genMapBare, dropPlain]; exact genMapBare_dropPlain dfl r _
+  | .generic ps :: r, m => by simp only [genMapBare, dropPlain]; exact genMapBare_dropPlain dfl r _
+  | .plain :: r, m => by simp only [genMapBare, dropPlain]; exact genMapBare_dropPlain dfl r m
+
+theorem firstParamBase_dropPlain : ∀ (obs : List OrigBase), firstParamBase obs = firstParamBase (dropPlain obs)
+  | [] => rfl
+  | .param _ _ :: _ => by simp only [firstParamBase, dropPlain]
+  | .generic _ :: r => by simp only [firstParamBase, dropPlain]; exact firstParamBase_dropPlain r
+  | .plain :: r => by simp only [firstParamBase, dropPlain]; exact firstParamBase_dropPlain r
+
+theorem mem_param_dropPlain (bps : List String) (args : List Ann) :
+    ∀ (obs : List OrigBase), OrigBase.param bps args ∈ obs → OrigBase.param bps args ∈ dropPlain obs
+  | [], h => by simp at h
+  | .param b a :: r, h => by
+      simp only [dropPlain]
+      rcases List.mem_cons.mp h with e | e
+      · rw [e]; exact List.mem_cons_self
+      · exact List.mem_cons_of_mem _ (mem_param_dropPlain bps args r e)
+  | .generic ps :: r, h => by
+      simp only [dropPlain]
+      rcases List.mem_cons.mp h with e | e
+      · cases e
+      · exact List.mem_cons_of_mem _ (mem_param_dropPlain bps args r e)
+  | .plain :: r, h => by
+      simp only [dropPlain]
+      rcases List.mem_cons.mp h with e | e
+      · cases e
+      · exact mem_param_dropPlain bps args r e
+
 /-- what `generate_mapping(cl)` binds the head class's own parameters to: the arguments the target denotes -/
 theorem headMapping_agree (lv : Level) (rest : List Level) (tgt : Target) (args : List Ann)
     (ht : targetArgs (lv :: rest) tgt = some args) (hlen : args.length = lv.params.length)
@@ -517,16 +573,17 @@ theorem headMapping_agree (lv : Level) (rest : List Level) (tgt : Target) (args 
       have hgen : isGenericBare (lv :: rest) = true := by
         simp [isGenericBare, hemp]
       simp only [generateMapping, hgen, ↓reduceIte]
+      rw [genMapBare_dropPlain, dropPlain_origBases]
       cases rest with
       | nil =>
-        simp only [origBases, hgb, hemp, Bool.not_false, Bool.and_self, ↓reduceIte, genMapBare, hany]
+        simp only [origBasesCore, hgb, hemp, Bool.not_false, Bool.and_self, ↓reduceIte, genMapBare, hany]
         rw [lookup_bindDefaults_mem _ p lv.params [] hp hall', hd]
       | cons b r =>
         by_cases hb : lv.baseArgs.isEmpty = true
-        · simp only [origBases, hb, ↓reduceIte, List.nil_append, hgb, hemp, Bool.not_false, Bool.and_self,
+        · simp only [origBasesCore, hb, ↓reduceIte, List.nil_append, hgb, hemp, Bool.not_false, Bool.and_self,
             genMapBare, hany]
           rw [lookup_bindDefaults_mem _ p lv.params [] hp hall', hd]
-        · simp only [origBases, hb, Bool.false_eq_true, ↓reduceIte, hgb, hemp, Bool.not_false, Bool.and_self,
+        · simp only [origBasesCore, hb, Bool.false_eq_true, ↓reduceIte, hgb, hemp, Bool.not_false, Bool.and_self,
             List.cons_append, List.nil_append, genMapBare, hany]
           rw [lookup_bindDefaults_mem _ p lv.params _ hp hall', hd]
     · rw [if_neg hg] at ht
@@ -536,11 +593,12 @@ theorem firstParamBase_cons2 (lv b : Level) (r : List Level) (m : Mapping) :
     (match firstParamBase (origBases (lv :: b :: r)) with
       | some (bps, args) => bindSkipTv m bps args
       | none => m) = bindSkipTv m b.params lv.baseArgs := by
+  rw [firstParamBase_dropPlain, dropPlain_origBases]
   by_cases hb : lv.baseArgs.isEmpty = true
   · have : lv.baseArgs = [] := by simpa using hb
     rw [this, bindSkipTv_nil_args]
-    cases hg : (lv.genericBase && !lv.params.isEmpty) <;> simp [origBases, this, hg, firstParamBase]
-  · simp [origBases, hb, firstParamBase]
+    cases hg : (lv.genericBase && !lv.params.isEmpty) <;> simp [origBasesCore, this, hg, firstParamBase]
+  · simp [origBasesCore, hb, firstParamBase]
 
 theorem structMapping_cons2 (lv b : Level) (r : List Level) (tgt : Target) :
     structMapping (lv :: b :: r) tgt = bindSkipTv (generateMapping (lv :: b :: r) tgt []) b.params lv.baseArgs := by
@@ -549,7 +607,9 @@ theorem structMapping_cons2 (lv b : Level) (r : List Level) (tgt : Target) :
 
 theorem structMapping_single (lv : Level) (tgt : Target) :
     structMapping [lv] tgt = generateMapping [lv] tgt [] := by
-  cases hg : (lv.genericBase && !lv.params.isEmpty) <;> simp [structMapping, origBases, hg, firstParamBase]
+  simp only [structMapping]
+  rw [firstParamBase_dropPlain, dropPlain_origBases]
+  cases hg : (lv.genericBase && !lv.params.isEmpty) <;> simp [origBasesCore, hg, firstParamBase]
 
 
 /-- core of `C17_mono_partial`: in scope, the mapping binds every own parameter and rewriting the fields with it is
@@ -1044,17 +1104,22 @@ theorem tvLike_genMapBare (dfl : Mapping) (p : String) (hd : lookup dfl p = none
         rw [lookup_bindDefaults_nodefault dfl p hd ps m]
         exact h
       · exact h
+  | .plain :: r, m, ho, h => by
+      simp only [genMapBare]
+      exact tvLike_genMapBare dfl p hd r m (fun b a hb => ho b a (by simp [hb])) h
 
 theorem mem_origBases_param (lv : Level) (rest : List Level) (bps : List String) (args : List Ann)
     (h : OrigBase.param bps args ∈ origBases (lv :: rest)) :
     ∃ b r, rest = b :: r ∧ bps = b.params ∧ args = lv.baseArgs := by
+  have h := mem_param_dropPlain bps args _ h
+  rw [dropPlain_origBases] at h
   cases rest with
   | nil =>
-    simp only [origBases] at h
+    simp only [origBasesCore] at h
     split at h <;> simp at h
   | cons b r =>
     refine ⟨b, r, rfl, ?_⟩
-    simp only [origBases, List.mem_append] at h
+    simp only [origBasesCore, List.mem_append] at h
     cases h with
     | inl e =>
       split at e
@@ -1111,6 +1176,117 @@ theorem unbound_refuses (lv : Level) (rest : List Level) (tgt : Target) (p : Str
       · exact (mem_rewriteFields _ _ _).mpr ⟨nt, by simp [allFields, hnt], rfl⟩
       · exact mentionsTv_fieldRewrite _ _ p hB nt.2 hp
     · cases hsg
+
+/-! ## generic aliases; refusal before any payload is looked at -/
+
+theorem lookup_bindAll_zip (p : String) (a : Ann) :
+    ∀ (ps : List String) (as : List Ann) (m : Mapping), ps.Nodup → (p, a) ∈ ps.zip as →
+      lookup (bindAll m ps as) p = some a
+  | [], _, _, _, h => by simp at h
+  | _ :: _, [], _, _, h => by simp at h
+  | q :: ps, b :: as, m, hn, h => by
+      simp only [List.zip_cons_cons, List.mem_cons, Prod.mk.injEq] at h
+      simp only [List.nodup_cons] at hn
+      simp only [bindAll]
+      rcases h with ⟨rfl, rfl⟩ | h
+      · rw [lookup_bindAll_notin p ps as _ hn.1]
+        simp [lookup]
+      · exact lookup_bindAll_zip p a ps as _ hn.2 h
+
+theorem aliasResolve_eq_subst (params : List String) (value : Ann) (args : List Ann)
+    (hcl : closedL args = true) (hok : annOk value = true)
+    (hname : ∀ n, dunderName value = some n → (∀ k, value ≠ .tv k) → lookup (zipMap params args) n = none)
+    (hpu : ∀ ms, value ≠ .pu ms) :
+    aliasResolve params value args = some (subst (zipMap params args) none value) := by
+  have hm : bindSkipTv [] params args = zipMap params args := bindSkipTv_closed params args [] hcl
+  simp only [aliasResolve, hm]
+  cases value with
+  | tv n =>
+    simp only [dunderName, subst]
+    cases h : lookup (zipMap params args) n <;> simp [deepCopyWith]
+  | lf n =>
+    have := hname _ rfl (by intro k e; cases e)
+    simp only [dunderName, this, deepCopyWith, subst]
+  | app c as =>
+    have := hname _ rfl (by intro k e; cases e)
+    simp only [annOk] at hok
+    simp only [dunderName, this, deepCopyWith, subst, rwArgs_eq_substL _ none as hok]
+  | ann i ms =>
+    have := hname _ rfl (by intro k e; cases e)
+    simp only [annOk] at hok
+    simp only [dunderName, this, deepCopyWith, subst, rwArg_eq_subst _ none i hok]
+  | self =>
+    have := hname _ rfl (by intro k e; cases e)
+    simp only [dunderName, this, deepCopyWith, subst]
+  | pu ms => exact absurd rfl (hpu ms)
+
+theorem none_genMapBare (dfl : Mapping) (p : String) (hd : lookup dfl p = none) :
+    ∀ (obs : List OrigBase) (m : Mapping),
+      (∀ bps args, OrigBase.param bps args ∈ obs → p ∉ bps) → lookup m p = none →
+      lookup (genMapBare dfl obs m) p = none
+  | [], m, _, h => by simpa [genMapBare] using h
+  | .param bps args :: r, m, ho, h => by
+      simp only [genMapBare]
+      refine none_genMapBare dfl p hd r _ (fun b a hb => ho b a (by simp [hb])) ?_
+      rw [lookup_bindAll_notin p bps args m (ho bps args (by simp))]
+      exact h
+  | .generic ps :: r, m, ho, h => by
+      simp only [genMapBare]
+      refine none_genMapBare dfl p hd r _ (fun b a hb => ho b a (by simp [hb])) ?_
+      split
+      · rw [lookup_bindDefaults_nodefault dfl p hd ps m]
+        exact h
+      · exact h
+  | .plain :: r, m, ho, h => by
+      simp only [genMapBare]
+      exact none_genMapBare dfl p hd r m (fun b a hb => ho b a (by simp [hb])) h
+
+/-- the mapping handed to the templates leaves `p` out altogether: creating the hook raises "Missing type for generic
+    argument" whatever the payload -/
+theorem unbound_upfront (lv : Level) (rest : List Level) (tgt : Target) (p : String) (hp : p ∈ lv.params)
+    (hunb : match tgt with
+      | .alias args => OnlyTv lv.params args p
+      | .bare => lookup (globalDefaults (lv :: rest)) p = none)
+    (hcap : ∀ b, rest.head? = some b → match tgt with
+      | .alias _ => OnlyTv b.params lv.baseArgs p
+      | .bare => p ∉ b.params) :
+    paramsBound (lv :: rest) (structMapping (lv :: rest) tgt) = false := by
+  have hA : lookup (generateMapping (lv :: rest) tgt []) p = none := by
+    cases tgt with
+    | alias args =>
+      simp only at hunb
+      simp only [generateMapping]
+      rw [lookup_bindSkipTv_onlyTv p lv.params args [] hunb]
+      rfl
+    | bare =>
+      simp only at hunb
+      simp only [generateMapping]
+      split
+      · refine none_genMapBare _ p hunb _ [] ?_ rfl
+        intro bps args hmem
+        obtain ⟨b, r, hr, hb, _⟩ := mem_origBases_param lv rest bps args hmem
+        rw [hb]
+        have := hcap b (by simp [hr])
+        simpa using this
+      · rfl
+  have hB : lookup (structMapping (lv :: rest) tgt) p = none := by
+    cases rest with
+    | nil => rw [structMapping_single]; exact hA
+    | cons b r =>
+      rw [structMapping_cons2]
+      have hc := hcap b rfl
+      cases tgt with
+      | alias args =>
+        simp only at hc
+        rw [lookup_bindSkipTv_onlyTv p b.params lv.baseArgs _ hc]
+        exact hA
+      | bare =>
+        simp only at hc
+        rw [lookup_bindSkipTv_notin p b.params lv.baseArgs _ hc]
+        exact hA
+  simp only [paramsBound]
+  rw [List.all_eq_false]
+  exact ⟨p, hp, by simp [hB]⟩
 
 mutual
 theorem mentionsTv_closed : ∀ t, closed t = true → mentionsTv t = false
